@@ -3,7 +3,31 @@
 def K(crate, name, what, bound=None, complete=False, tier="quick"):
     return {"crate": crate, "name": name, "what": what, "bound": bound, "complete": complete, "tier": tier}
 
+KINDS = r"potential_kinds|compute_kinds|::new$|::inner$"
+MATCH = r"match_node_with_env"
+OPS_DECIDED_C04 = "frame law on trait Matcher (None => env unchanged; Some => env exactly the reference env) proved for &T, MatchAll, MatchNone, Op, Or, Not, And, All, Any"
 PROPS = {
+    "C01": {
+        "units": [("ops", KINDS)],
+        "kani": [],
+        "decided": ["potential_kinds of every matcher in ops.rs/matcher.rs over-approximates the kinds of nodes it can match (trait-level ensures); All/Any cached kinds sound (type invariant established by new via compute_kinds)"],
+        "not_decided": ["run.rs/scan.rs wiring, injected languages, ordering across files"],
+        "assumptions": [],
+    },
+    "C04": {
+        "units": [("ops", MATCH)],
+        "kani": [],
+        "decided": [OPS_DECIDED_C04],
+        "not_decided": ["relational rules / ReferentRule / StopBy::find (closures capturing &mut env): frame assumed"],
+        "assumptions": [],
+    },
+    "C05": {
+        "units": [("ops", MATCH)],
+        "kani": [],
+        "decided": ["all = left fold threading env on the same node; any = first alternative from the original env; not = negation binding nothing; and/or as documented"],
+        "not_decided": ["inside/has/precedes/follows, stopBy, field (closures + tree-sitter cursors)"],
+        "assumptions": [],
+    },
     "C10": {
         "units": ["source"],
         "kani": [],
